@@ -29,15 +29,16 @@ const vBase = "zz_generated"
 // ---- behaviour of the harness generators, chosen per (generator, package, type)
 
 const (
-	vActRender    = iota // render a declaration
-	vActNothing          // render nothing, return nil
-	vActSkip             // return ErrSkip (wrapped)
-	vActIgnore           // return ErrIgnore (wrapped), render nothing
-	vActError            // return some other error
-	vActDeferOK          // register a deferred callback that renders
-	vActDeferErr         // register a deferred callback that fails
-	vActBadSyntax        // render text that is not parseable Go
-	vActPanic            // the generator panics (the process dies part-way through the run)
+	vActRender      = iota // render a declaration
+	vActNothing            // render nothing, return nil
+	vActSkip               // return ErrSkip (wrapped)
+	vActIgnore             // return ErrIgnore (wrapped), render nothing
+	vActError              // return some other error
+	vActDeferOK            // register a deferred callback that renders
+	vActDeferErr           // register a deferred callback that fails
+	vActBadSyntax          // render text that is not parseable Go
+	vActPanic              // the generator panics (the process dies part-way through the run)
+	vActDeferNested        // register a deferred callback that renders and itself registers another one
 	vNumActs
 )
 
@@ -105,6 +106,17 @@ func vDo(gen string, c Context, pkgPath, typeName string, seen *int, helper *boo
 		c.Defer(func(c Context) error {
 			vLog(genName + ":defer:" + pkgPath + "." + typeName)
 			c.RenderT("\nvar deferred_@name'_@gen = 1\n", snippetArg("name", typeName), snippetArg("gen", gen))
+			return nil
+		})
+	case vActDeferNested:
+		c.Defer(func(c Context) error {
+			vLog(genName + ":defer:" + pkgPath + "." + typeName)
+			c.RenderT("\nvar deferred_@name'_@gen = 1\n", snippetArg("name", typeName), snippetArg("gen", gen))
+			c.Defer(func(c Context) error {
+				vLog(genName + ":defer2:" + pkgPath + "." + typeName)
+				c.RenderT("\nvar nested_@name'_@gen = 1\n", snippetArg("name", typeName), snippetArg("gen", gen))
+				return nil
+			})
 			return nil
 		})
 	case vActDeferErr:
